@@ -6,7 +6,8 @@
         equations, the symmetry of Ã and Λ·Λ⁻¹ = 1 (Mathlib `Matrix`, CC/Proofs/StateAlgebra.lean);
     C10_model_realisation    the same for the matrices the executable model
         CC/Model/StateSpace.lean returns (bridge CC/Proofs/StateBridge.lean);
-    C10_dims, C10_sources_length, C10_container, C10_unknown_node_zero_row;
+    C10_dims, C10_sources_length, C10_container, C10_unknown_node_zero_row (reference ⇒ zero
+        row, unknown id ⇒ KeyError, since fix f9f472e);
     C10_columns_follow_sources   FULL strength since fix 3361ab5 (block-position column
         selection): column k of QS belongs to sources[k], column k of QL to the k-th key of
         l_values — every network, every naming, every listing order.  The two former
@@ -119,11 +120,16 @@ theorem C10_container (a b c d : Nat × Nat) :
     containerCheck a b c d = .ok () ↔ (a.1 = a.2 ∧ b.1 = a.1 ∧ c.2 = a.1 ∧ d.1 = c.1 ∧ d.2 = b.2) :=
   containerCheck_ok_iff a b c d
 
-/-- quirk, as the code is: an id that is not in the node map gives a ZERO output row (so
-`TransientSolution.get_potential('unknown')` is a series of zeros, not an error) -/
-theorem C10_unknown_node_zero_row (m : NSSM L K) (node : L) (h : idxOf? node m.net.nodes = none) :
-    m.cRowPotential node = Mx.zeroVec m.nStates ∧ m.dRowPotential node = Mx.zeroVec m.nInputs :=
-  ⟨rowForPotential_unknown m node _ _ h, rowForPotential_unknown m node _ _ h⟩
+/-- output rows for node ids outside the node map (since fix f9f472e): the reference node gets a
+ZERO row, any other unmapped id is a `KeyError` — so `TransientSolution.get_potential('unknown')`
+raises instead of answering with a series of zeros -/
+theorem C10_unknown_node_zero_row (m : NSSM L K) :
+    (m.cRowPotential m.net.zero = .ok (Mx.zeroVec m.nStates)
+      ∧ m.dRowPotential m.net.zero = .ok (Mx.zeroVec m.nInputs))
+    ∧ ∀ node : L, idxOf? node m.net.nodes = none → node ≠ m.net.zero →
+        m.cRowPotential node = .error .keyError ∧ m.dRowPotential node = .error .keyError :=
+  ⟨⟨rowForPotential_reference m _ _, rowForPotential_reference m _ _⟩,
+   fun node h hz => ⟨rowForPotential_unknown m node _ _ h hz, rowForPotential_unknown m node _ _ h hz⟩⟩
 
 /-- **input columns follow the published source order, inductor columns the dictionary** — full
 strength: every network with distinct ids, every dictionary whose keys are ideal voltage sources
